@@ -101,8 +101,10 @@ func (in *Interp) callFn(fn *ssa.Function, args []Value, closure []Value) Value 
 		fmt.Printf("%*scall %s\n", in.depth, "", name)
 	}
 	if h, ok := in.Hooks[name]; ok {
-		in.Stats.Stubs[name]++
-		return h(in, args)
+		if r, handled := h(in, fn, args); handled {
+			in.Stats.Stubs[name]++
+			return r
+		}
 	}
 	if strings.Contains(name, ".zz") && fn.Pkg != nil {
 		if r, ok := in.intrinsic(fn, args); ok {
@@ -111,7 +113,7 @@ func (in *Interp) callFn(fn *ssa.Function, args []Value, closure []Value) Value 
 	}
 	if nat, ok := natives[name]; ok {
 		in.Stats.Natives[name]++
-		return nat(in, fn, args)
+		return in.distribute(args, 0, func(a []Value) Value { return nat(in, fn, a) })
 	}
 	if fn.Name() == "init" && fn.Signature.Recv() == nil && fn.Pkg != nil && fn.Pkg.Func("init") == fn {
 		if in.InitPkgs[fn.Pkg.Pkg.Path()] {
@@ -349,4 +351,19 @@ func (in *Interp) RunInit(pkgPath string) {
 	in.lenient = true
 	defer func() { in.lenient = old }()
 	in.CallFunction(initFn, nil, nil)
+}
+
+// distribute calls f once per combination of alternatives of union arguments.
+func (in *Interp) distribute(args []Value, from int, f func([]Value) Value) Value {
+	for i := from; i < len(args); i++ {
+		if _, ok := args[i].(*UnionVal); ok {
+			return in.mapAlts(args[i], func(v Value) Value {
+				na := make([]Value, len(args))
+				copy(na, args)
+				na[i] = v
+				return in.distribute(na, i+1, f)
+			})
+		}
+	}
+	return f(args)
 }
